@@ -105,6 +105,12 @@ def run(tier):
         for pt in points:
             scs.append(dict(sid="seq2[ieee14_solar|%s|%s]" % (pt, ">".join(q)), point=pt, ops=q, formats=["json"],
                             case="ieee14/ieee14_solar.xlsx", targets=tg))
+    # the whole input table handed back with one cell changed (Model.update_from_df(vin=True), the path of the notebook sheet editor):
+    # a load power and a line reactance on the system base (conversion factor one) and a machine reactance on the machine base
+    tb = {"PQ.p0": ["PQ", "p0", "PQ_0", "StaticLoad"], "GENROU.xd": ["GENROU", "xd", 3, "SynGen"], "Line.x": ["Line", "x", "Line_2", "ACLine"]}
+    for k, q in enumerate([["table_vin"], ["table_vin", "table_vin", "table_vin"], ["alter_v", "table_vin", "table_vin"], ["table_vin", "set", "table_vin"]]):
+        for pt in ("after_setup", "after_pflow"):
+            scs.append(dict(sid="seq3[kundur_full|%s|%s]" % (pt, ">".join(q)), point=pt, ops=q, formats=["json"], targets=tb))
     for i, sc in enumerate(scs):
         sc["tid"] = i + 1
     res = run_tasks("vh.pudrv:run_sequence", scs, nproc=NCPU, timeout=600)
